@@ -40,7 +40,7 @@ def register(reg):
     def hd_req(c):
         L = c.config['levels']
         out = well_formed(c.self, L) + [('p-range', And(c.p >= 1, c.p <= 31)),
-                                        ('pow2', And(pow2(c.p) >= 2, pow2(2 * c.p) == pow2(c.p) * pow2(c.p)))]
+                                        ('pow2', And(pow2(c.p) >= 2, pow2(c.p) <= 2 ** 31, pow2(2 * c.p) == pow2(c.p) * pow2(c.p)))]
         if c.config['tb'] == 'none':
             out.append(('array-has-a-finite-extent', And(*[x.is_fin() for x in tb_items(c)])))
         return out
